@@ -40,6 +40,12 @@ for _pid in ("C01", "C02", "C03", "C05"):
 PROPS["C20"] = {"jobs": [{"pkg": "keys", "run": "^TestC20$", "checks_quick": 1500, "checks_thorough": 8000, "shards_thorough": 16},
                          {"pkg": "keys", "run": "^TestC20Parallel$", "race": True, "checks_quick": 150, "checks_thorough": 2000, "shards_thorough": 4}]}
 
+# Native coverage-guided campaigns over the generators' bit streams (rapid.MakeFuzz), thorough tier only: the fuzz
+# bytes are what rapid draws from, so the fuzzer mutates generated programs and keeps those that reach new code.
+for _pid, _pkg, _fn, _t in (("C06", "auth", "FuzzC06", "150s"), ("C07", "auth", "FuzzC07", "150s"), ("C08", "codec", "FuzzC08", "150s"),
+                            ("C15", "iter", "FuzzC15", "150s"), ("C18", "codec", "FuzzC18", "150s"), ("C19", "order", "FuzzC19", "120s")):
+    PROPS[_pid]["jobs"].append({"pkg": _pkg, "fuzz": _fn, "tiers": ["thorough"], "shards_thorough": 1, "fuzztime_thorough": _t, "parallel": 8})
+
 HOOK_COMMITS = ["0049d5e", "3ca7037", "66fb88e"]
 
 # Manifest metadata per claimed property.
@@ -146,3 +152,6 @@ META = {
         "note": "Ids are datastore-key-normal; create only for absent ids.",
     },
 }
+
+for _pid in ("C06", "C07", "C08", "C15", "C18", "C19"):
+    META[_pid]["technique"] += "; the thorough tier adds a native coverage-guided campaign (go test -fuzz) over the same generator and oracle, the fuzz input being the generator's bit stream (rapid.MakeFuzz)"
